@@ -261,6 +261,23 @@ CHECKS["C09"] = dict(
          "renderings. Not judged (the property does not demand it): locating success for QR / DM at image level, which of Format / Checksum is "
          "reported. Known findings C09-upce-default-quiet-zone and C09-upce-reversed-row-misread are open.",
     technique="TLA+ retry automata + exact pixel-map pose spec; TLC model checking, TLC-enumerated pose grid replayed on the real writers/readers, trace validation against reference readers")
+CHECKS["C06"] = dict(
+    category="model_checking",
+    text="spec/Totality.tla is the call/return contract (result xor error, allowed error kinds per API class, no panic, no hang) with the "
+         "readers' retry compositions; spec/TotalParse.tla gives the QR, Data Matrix and Aztec bit-stream parsers as total reference automata "
+         "whose outcome class is ok / format / any. TLC model-checks the contract (every retry composition over all inner outcome vectors "
+         "stays total and of a documented kind; the ECI set equals the Charset registry) and enumerates exhaustively every symbol sequence up "
+         "to a depth over branch-hitting alphabets (QR bytes x 3 version classes, Data Matrix codewords per mode, all Aztec bit strings up to "
+         "12 (15) bits plus code / FLG(n) sequences) and 1-D symbols with correct check characters but arbitrary symbol characters. Every input "
+         "runs on the real parsers, readers and row decoders; TLC validates every recorded call: no panic, no hang, exactly one of result / "
+         "error, image and row readers return only NotFound / Checksum / Format, and the parser outcome class equals the reference automaton's. "
+         "ECI values 0..999 999 go through all designator forms as block events; a seeded structured fuzz of 17 reader variants, 3 matrix "
+         "decoders (square and non-square) and 13 row decoders covers synthetic images, mutated symbols of every writer, sample images and hint maps.",
+    design_ref="DESIGN.md section 6 C06",
+    note="Trusted: TLC; Totality.tla / TotalParse.tla (ISO 18004, 16022, 24778); golang.org/x/text decoders being total; harness/c06 (recover + 20 s "
+         "watchdog, error-kind projection by dynamic type). Class 'any' wherever the standards leave the outcome open. Decoded text is not "
+         "compared here (C01 / C02 / C11).",
+    technique="TLA+ call/return contract + total reference parser automata; TLC-enumerated branch-hitting inputs replayed on the real code; sharded trace validation of every recorded call")
 
 NOT_YET = {
 }
